@@ -91,9 +91,9 @@ ScanLines(lines, k, s) ==
                     !.ok = s.ok /\ ~HasAny(ln, f + 1, {"#"}) /\ (endsBs => ~HasAny(ln, f + 1, {"'", "\""})),
                     !.dirs = IF endsBs THEN s.dirs ELSE Append(s.dirs, {k})]))
   ELSE IF (s.q = "" \/ s.cont) /\ IsSentinel(ln, f) THEN
-       \* a directive sentinel inside a continued statement is a directive to one compiler and a
-       \* comment to another: outside the well-formed texts
-       ScanLines(lines, k + 1, TLCEval([s EXCEPT !.counted = s.counted \cup {k}, !.ok = s.ok /\ ~s.cont]))
+       \* (also between the lines of a continued statement - the OpenMP conditional-compilation idiom:
+       \*  the line is counted, the statement goes on)
+       ScanLines(lines, k + 1, TLCEval([s EXCEPT !.counted = s.counted \cup {k}]))
   \* ordinary comment line; comment lines may also stand between the lines of a continued
   \* statement, even while a character literal is being continued
   ELSE IF (s.q = "" \/ s.cont) /\ ln[f] = "!" THEN ScanLines(lines, k + 1, s)
